@@ -2,6 +2,7 @@
 Also hosts the template-level rules of C05 (R6), C06 (R5) and C07 (R4): they share the template interpreter."""
 from core import expr_str, strip, subexprs, callee_keys, AnchorMissing
 from absint import Interp, Sym, Agg, TOP, std_oracle, chain
+import re
 import templates as T
 import compsum
 import k4
@@ -298,7 +299,14 @@ def r14_template_parameters(ctx, rule="C16.R14"):
         tparams = [p_["name"] for p_ in (fn.generics or {}).get("params", []) if p_.get("kind") == "type"]
         idents = [p_ for p_ in tparams if any(pr.get("self") == p_ and "identifier::Identifier" in (pr.get("trait") or "") for pr in (fn.generics or {}).get("preds", []))]
         if idents:
-            wrong = [l for l in leaves if (l.ty or "").endswith("evaluation::PopulationEvaluator") and getattr(l.leaf, "gargs", None) is not None and not any(g in idents for g in l.leaf.gargs)]
+            def names_other(l):
+                g = getattr(l.leaf, "gargs", None)
+                if g is None or any(a in idents for a in g):
+                    return False
+                # a bare name that is not one of the template's own type parameters is a generic parameter of an inlined helper
+                # the interpreter could not instantiate: undecided, not reported
+                return not any(isinstance(a, str) and re.fullmatch(r"[A-Za-z_][A-Za-z0-9_]*", a) and a not in tparams for a in g)
+            wrong = [l for l in leaves if (l.ty or "").endswith("evaluation::PopulationEvaluator") and names_other(l)]
             ctx.check(not wrong, rule, fn.key, "evaluates-under-its-own-identifier",
                       "%s is generic over the identifier %s but contains an evaluation step for %s: with another identifier than Global the population is evaluated by a different evaluator than the one the template names"
                       % (fn.key.split("::")[-1], idents, sorted({str(l.leaf.gargs) for l in wrong})), loc=fn.loc())
